@@ -106,6 +106,8 @@ class FitYamlWriter(YamlWriterMixin, FitDReprBase):
             _par_formatter_dict = {_par_formatter.arg_name: _par_formatter.name for _par_formatter in fit._parameter_formatters}
             if _par_formatter_dict:
                 _yaml_doc["parameter_formatters"] = _par_formatter_dict
+            # a custom fit has no parametric model that could carry the current parameter values
+            _yaml_doc["parameter_values"] = [float(_par_value) for _par_value in fit.parameter_values]
 
         _cost_function_identifier = fit._cost_function.kafe2go_identifier
         if _cost_function_identifier is not None:
@@ -233,6 +235,9 @@ class FitYamlReader(YamlReaderMixin, FitDReprBase):
                 _fit_object._parameter_formatters = [
                     ParameterFormatter(arg_name=_arg_name, name=_name) for (_arg_name, _name) in _par_formatters.items()
                 ]
+            _parameter_values = yaml_doc.pop("parameter_values", None)
+            if _parameter_values is not None:
+                _fit_object.set_all_parameter_values(_parameter_values)
             _fit_object._update_parameter_formatters()
 
         if _read_parametric_model is not None:
